@@ -69,6 +69,7 @@ static void check(ByteSource& in, CaseInfo& ci) {
         for (int k = 0; k < g.qo; k++) { mpq_ptr q = aP.q[k]; if (in.flag()) { mpz_realloc2(mpq_numref(q), mpz_sizeinbase(mpq_numref(q), 2)); mpz_realloc2(mpq_denref(q), mpz_sizeinbase(mpq_denref(q), 2)); } }
         ci.d(" %s(", op.name); for (int k = 0; k < nzz; k++) ci.d("%sz%d", k == g.zo ? "; " : k ? "," : "", zi[k]); for (int k = 0; k < nqq; k++) ci.d("%sq%d", k == g.qo ? "; " : ",", qi[k]); for (int k = 0; k < nff; k++) ci.d("%sf%d", k == g.fo ? "; " : ",", fi[k]); ci.d(")");
         Res rP, rS; g_armed = 1; op.run(aP, rP); g_armed = 0; op.run(aS, rS);   // callers inside libc (stdio buffers) are not "__gmp" symbols and are ignored
+        for (auto& sv : rP.sv) REQUIRE(sv.compare(0, 10, "ILL-FORMED") != 0, "%s: %s", op.name, sv.c_str());
         REQUIRE(g_direct.empty(), "%s: %s although custom memory functions are installed", op.name, g_direct.c_str());
         REQUIRE(g_alloc_err.empty(), "%s: allocator contract broken: %s", op.name, g_alloc_err.c_str());
         REQUIRE(rP == rS, "%s: returned values / strings differ between the shrunk pool and the shadow pool", op.name);
